@@ -79,7 +79,7 @@ def c1_runs(tier):
     if tier == "quick":
         # ~12 000 ODE solves: the budget of the quick tier (about 10 ms each)
         add("trees2-weighted", O.tree_consts(2, W, W, {1, 2}, {1, 2}), ALL5, True)
-        add("trees3-weighted", O.tree_consts(3, W, W, {1, 2}, {1}, checkdefs=True), ["sorted", "rotated-nodelist"], True)
+        add("trees3-weighted", O.tree_consts(3, W, W, {1, 2}, {1}, checkdefs=True), ["sorted", "rotated-nodelist", "attr-weight"], True)
         add("trees4-unit", O.tree_consts(4, {1}, {1}, {1, 2}, {1}, checkdefs=True), ["sorted", "rotated-insertion", "rotated-nodelist", "direct"], False)
         add("shape4.0-weighted", O.tree_consts(4, W, W, {2}, {1}, shape=O.shape_of_edges(4, s4[0])), ["sorted"], True)
         add("shape4.1-edgeweighted", O.tree_consts(4, W, {1}, {2}, {1}, shape=O.shape_of_edges(4, s4[1])), ["sorted"], True)
@@ -89,7 +89,7 @@ def c1_runs(tier):
         add("cyclic4-unit", O.tree_consts(4, {1}, {1}, {2}, {1}, cyclic=True), ["sorted"], False, control=True)
         return runs
     add("trees2-weighted", O.tree_consts(2, W, W, {1, 2}, {1, 2}), ALL5, True)
-    add("trees3-weighted", O.tree_consts(3, W, W, {1, 2}, {1, 2}, checkdefs=True), ORD3, True)
+    add("trees3-weighted", O.tree_consts(3, W, W, {1, 2}, {1, 2}, checkdefs=True), ORD3 + ["attr-weight"], True)
     add("trees4-unit", O.tree_consts(4, {1}, {1}, {1, 2}, {1, 2}, checkdefs=True), ALL5, False)
     for i, edges in enumerate(s4):
         add("shape4.%d-weighted" % i, O.tree_consts(4, W, W, {1, 2}, {1, 2}, shape=O.shape_of_edges(4, edges)), ["sorted"], True)
